@@ -3,7 +3,13 @@
 package webdav
 
 import (
+	"context"
+	"encoding/xml"
 	"fmt"
+	"io"
+	"io/ioutil"
+	"net/http"
+	"net/url"
 
 	"github.com/emersion/go-webdav/internal"
 	vrt "github.com/emersion/go-webdav/internal/zz_verifrt"
@@ -181,4 +187,72 @@ func VerifH_C04_RealUnquote() {
 	// any tag obtained from the server is accepted back and compares equal
 	back, err := ConditionalMatch(internal.ETag(etag).String()).ETag()
 	vrt.Assert(err == nil && back == etag, "a tag announced by the server is accepted back in a conditional header")
+}
+
+// verifTagFS: a backend whose entity tags are arbitrary strings.
+type verifTagFS struct {
+	verifMemFS
+	tag string
+}
+
+func (m *verifTagFS) Create(ctx context.Context, name string, body io.ReadCloser, opts *CreateOptions) (*FileInfo, bool, error) {
+	b, err := ioutil.ReadAll(body)
+	if err != nil {
+		return nil, false, err
+	}
+	return &FileInfo{Path: name, Size: int64(len(b)), ETag: m.tag}, false, nil
+}
+
+// VerifH_C04_TagsAnyBackend: over a backend whose entity tag is any byte
+// string (1..etaglen bytes, every byte value; the real strconv quoting code
+// runs on it), GET, HEAD and PUT announce one and the same header text,
+// PROPFIND reports the same tag, and the announced text is accepted back by
+// the conditional-header helpers as exactly the backend's tag.
+func VerifH_C04_TagsAnyBackend() {
+	internal.VerifResetWire()
+	tag := vrt.StrN("etag", 1+vrt.Choose("etag-len", vrt.Param("etaglen", 2)))
+	fs := &verifTagFS{tag: tag}
+	fs.content = map[string]string{"/f": "x"}
+	fs.infos = []FileInfo{{Path: "/f", Size: 1, ETag: tag}}
+	h := &Handler{FileSystem: fs}
+	var announced []string
+	methods := []string{"GET", "HEAD", "PUT"}
+	for _, m := range methods {
+		rec := newVerifRecorder()
+		req := &http.Request{Method: m, URL: &url.URL{Path: "/f"}, Header: http.Header{}, Host: "dav.example"}
+		req.Body = http.NoBody
+		if m == "PUT" {
+			req.Body = &verifStringReader{s: "x"}
+		}
+		h.ServeHTTP(rec, req)
+		vrt.Assert(rec.code < 300, m+" on an existing file succeeds")
+		announced = append(announced, rec.hdr.Get("ETag"))
+	}
+	for i, m := range methods {
+		vrt.Assert(announced[i] == announced[0], m+" announces the same entity tag text as GET")
+		back, err := ConditionalMatch(announced[i]).ETag()
+		vrt.Assert(err == nil && back == tag, "the tag announced by "+m+" is accepted back as the backend's tag")
+		ok, err := ConditionalMatch(announced[i]).MatchETag(tag)
+		vrt.Assert(ok && err == nil, "the tag announced by "+m+" matches the resource in a conditional header")
+	}
+	// PROPFIND Depth 0
+	rec := newVerifRecorder()
+	req := &http.Request{Method: "PROPFIND", URL: &url.URL{Path: "/f"}, Header: http.Header{"Depth": []string{"0"}}, Host: "dav.example", Body: http.NoBody}
+	h.ServeHTTP(rec, req)
+	var ms *internal.MultiStatus
+	if vrt.Symbolic() {
+		ms = internal.VerifServed
+	} else if rec.code == 207 {
+		ms = &internal.MultiStatus{}
+		if err := xml.Unmarshal([]byte(rec.body()), ms); err != nil {
+			vrt.Fail("207 body is not a readable multi-status: " + err.Error())
+		}
+	}
+	vrt.Assert(ms != nil && len(ms.Responses) == 1, "PROPFIND answers with one response")
+	if ms != nil && len(ms.Responses) == 1 {
+		var ge internal.GetETag
+		err := ms.Responses[0].DecodeProp(&ge)
+		vrt.Assert(err == nil && string(ge.ETag) == tag, "PROPFIND reports the same entity tag")
+	}
+	vrt.Reach("tags-any-backend")
 }
